@@ -6,8 +6,10 @@ from checklib import PropCheck
 from props.common import dump_of
 from props.c10 import edit_prefix
 
-NAME_POOL = ['A', 'B', 'taxon_1', 'Homo_sapiens', 'x.y', '12', '1e5', '-', 'é中', '\U0001F600', 'a|b', "it's", 'A#1', '&&', '0.5', 'inf']
-QUOTED = ['"a b"', '"x(y)"', '"p;q"', '"[z]"', '"c:d,e"', '"  "', 'pre"in side"post', '"\t"', '""']
+NAME_POOL = ['A', 'B', 'taxon_1', 'Homo_sapiens', 'x.y', '12', '1e5', '-', 'é中', '\U0001F600', 'a|b', "it's", 'A#1', '&&', '0.5', 'inf',
+             'a\\b', 'C\\', '\\n', 'p%q', 'k=v', '{x}', 'a/b', '<t>', 'q?', '!', '@', '$1', '~', '^', '*', '`', '+', 'NaN', 'E', 'e-5']
+QUOTED = ['"a b"', '"x(y)"', '"p;q"', '"[z]"', '"c:d,e"', '"  "', 'pre"in side"post', '"\t"', '""', '"Homo sapiens\\isolate 3"', '"C:\\data\\x"',
+          '"a\\"', '"\\("', '"1 2"', "\"it's\""]
 COMMENTS = ['c', '&&NHX:name=A:flag=Red', 'a b', '(,;:)', '"', '[[', 'x"y', ' ', '\n', 'é']
 
 def canon(nodes, v):
